@@ -301,6 +301,46 @@ pub fn run_case(case: &mut Case) {
         let canon = render_chunks(&units, &mut rng, SpellStyle::Canonical);
         let cline = assemble(&units, &canon);
         let (o_canon, _) = b.run(case, &cline.argv, "canonical");
+        // an `adjacent` argument takes its value from the same item only: the detached spelling of
+        // an accepted line is not accepted
+        if !invalid && o_canon.is_value() {
+            for (ix, o) in cline.origin.iter().enumerate() {
+                let adj_only = matches!(
+                    &units[o.unit].kind,
+                    UKind::Arg { adjacent_only: true, .. }
+                );
+                if !adj_only || o.role != Role::ArgJoined {
+                    continue;
+                }
+                let item = &cline.argv[ix];
+                let eq = match item.iter().position(|c| *c == b'=') {
+                    Some(p) => p,
+                    None => continue,
+                };
+                let (name, value) = (item[..eq].to_vec(), item[eq + 1..].to_vec());
+                if value.is_empty() || value.starts_with(b"-") {
+                    continue;
+                }
+                let mut argv = cline.argv.clone();
+                argv[ix] = name;
+                argv.insert(ix + 1, value);
+                let (o_det, _) = b.run(case, &argv, "adjacent-argument-detached");
+                case.rep.count("adjacent-detached-checked");
+                if o_det.is_value() {
+                    case.rep.violation(
+                        "adjacent-argument-accepts-detached-value",
+                        "adjacent-restriction",
+                        case.index,
+                        b.detail(
+                            &argv,
+                            "adjacent-argument-detached",
+                            "a failure (the argument is restricted to `name=value` / `-nvalue`)",
+                            &o_det,
+                        ),
+                    );
+                }
+            }
+        }
         if !invalid {
             // byte-exactness: the value is what was written
             match &o_canon {
